@@ -317,6 +317,12 @@ func (a *analyzer) analyze(fn *ssa.Function) *summary {
 				m, ok := o.marks[lk]
 				good := ok && m.lo >= 1
 				ln := a.loopNo(succ)
+				if !a.loopTouchesCursor(succ) {
+					// a loop that performs no cursor operation cannot spin on the input; it must be a counted loop
+					a.rec("O3", fn, fmt.Sprintf("loop #%d (no cursor operation) is a counted loop", ln), succ.Instrs[0], countedLoop(succ),
+						"a loop without cursor operations is not a simple counted/range loop: its termination is not evident")
+					continue
+				}
 				a.rec("O3", fn, fmt.Sprintf("loop #%d: every iteration advances the cursor", ln), succ.Instrs[0], good,
 					fmt.Sprintf("the loop may iterate without consuming a byte (net advance since the loop header %v): the parser can hang", m))
 				bounded := o.ov < INF
@@ -614,6 +620,28 @@ func constInt(v ssa.Value) (int, bool) {
 }
 
 func (a *analyzer) refine(fn *ssa.Function, st *state, cond ssa.Value, truth bool) *state {
+	if u, ok := cond.(*ssa.UnOp); ok && u.Op == token.NOT {
+		return a.refine(fn, st, u.X, !truth)
+	}
+	if c, ok := cond.(*ssa.Call); ok && len(c.Call.Args) == 1 {
+		// a pure library predicate on a read result: if it is false for the end-of-input sentinel, its being true
+		// means a real byte was read
+		v := c.Call.Args[0]
+		for i := 0; i < 2; i++ {
+			if cv, ok := v.(*ssa.Convert); ok {
+				v = cv.X
+			}
+		}
+		v = a.res(st, v)
+		if cur, isRead := st.ints[v]; isRead && truth && evalCond(cond, c.Call.Args[0], -1) == 0 {
+			cur.lo = max(cur.lo, 0)
+			st.ints[v] = cur
+			if m, ok := st.marks["n:"+v.Name()]; ok && m.hi < st.ov {
+				st.ov = m.hi
+			}
+		}
+		return st
+	}
 	bo, ok := cond.(*ssa.BinOp)
 	if !ok {
 		// bool result of a cursor method etc: no refinement
@@ -713,7 +741,16 @@ func (a *analyzer) refine(fn *ssa.Function, st *state, cond ssa.Value, truth boo
 		return nil
 	}
 	if isNil(y) {
-		if c := callOf(x); c != nil && st.dirty == ssa.Value(c) {
+		c := callOf(x)
+		if ph, isPhi := x.(*ssa.Phi); isPhi && st.dirty != nil {
+			// a merged result: on the paths where the pending call happened, the merged value is that call's result
+			for _, e := range ph.Edges {
+				if e == st.dirty {
+					c, _ = st.dirty.(*ssa.Call)
+				}
+			}
+		}
+		if c != nil && st.dirty == ssa.Value(c) {
 			isErr := types.Identical(x.Type(), types.Universe.Lookup("error").Type())
 			success := (op == token.NEQ && !isErr) || (op == token.EQL && isErr)
 			if success {
@@ -949,4 +986,62 @@ func RunCursor(p *Prog, pkgpath string) *CursorResult {
 		res.Obs = append(res.Obs, a.obs[k])
 	}
 	return res
+}
+
+// loopTouchesCursor: some block of the loop headed by h calls the read/step-back primitives or another reader, or
+// stores to the position.
+func (a *analyzer) loopTouchesCursor(h *ssa.BasicBlock) bool {
+	for _, b := range h.Parent().Blocks {
+		if !h.Dominates(b) || !(b == h || reachableWithout(b, nil)[h]) {
+			continue
+		}
+		for _, in := range b.Instrs {
+			switch x := in.(type) {
+			case *ssa.Call:
+				c := x.Call.StaticCallee()
+				if c == a.next || c == a.back || a.isCursorMethod(c) {
+					return true
+				}
+			case *ssa.Store:
+				if isRecvField(x.Addr, nil, a.posIdx, a.cursorT) {
+					return true
+				}
+			}
+		}
+	}
+	return false
+}
+
+// countedLoop: the header has an induction phi i = phi(c, i+k) (k > 0) compared against a bound.
+func countedLoop(h *ssa.BasicBlock) bool {
+	for _, in := range h.Instrs {
+		ph, ok := in.(*ssa.Phi)
+		if !ok {
+			continue
+		}
+		for _, e := range ph.Edges {
+			if bo, ok := e.(*ssa.BinOp); ok && bo.Op == token.ADD && bo.X == ssa.Value(ph) {
+				if k, ok := bo.Y.(*ssa.Const); ok && k.Int64() > 0 {
+					return true
+				}
+			}
+			// rotated form: i' = i + 1 is computed in the header itself
+			if bo, ok := e.(*ssa.BinOp); ok && bo.Op == token.ADD {
+				if inner, ok := bo.X.(*ssa.Phi); ok && inner == ph {
+					return true
+				}
+			}
+		}
+		// rangeindex lowering: the phi feeds t = phi + 1 which is one of its own edges
+		for _, ref := range *ph.Referrers() {
+			if bo, ok := ref.(*ssa.BinOp); ok && bo.Op == token.ADD {
+				for _, e := range ph.Edges {
+					if e == ssa.Value(bo) {
+						return true
+					}
+				}
+			}
+		}
+	}
+	return false
 }
